@@ -109,27 +109,33 @@ example : ctorAccepts [0] [.loop [.assign 0]] = false ∧ (runB [.loop [.assign 
   decide
 
 open MV in
-/-- **constructor_rejection_is_justified**: a constructor body without `return` is rejected only if some
-    path through it really leaves an attribute unassigned (the analysis does not over-reject) -/
-theorem constructor_rejection_is_justified (fields : List Nat) (body : List CS) (hrf : retFreeB body = true)
+/-- **constructor_rejection_is_justified**: a constructor body is rejected only if some path through it
+    really ends — by falling through or by `return` — with an attribute unassigned (the analysis does
+    not over-reject) -/
+theorem constructor_rejection_is_justified (fields : List Nat) (body : List CS)
     (h : ctorAccepts fields body = false) :
     ∃ choices, ∃ f ∈ fields, f ∉ (runB body choices []).2.1 := by
-  obtain ⟨u', hu⟩ := uaB_some body fields hrf
   unfold ctorAccepts at h
-  simp only [hu] at h
-  cases u' with
-  | nil => simp at h
-  | cons x rest =>
-    have hx : x ∈ x :: rest := by simp
-    obtain ⟨p, hp⟩ := pathB body fields (x :: rest) x hrf hu hx
-    refine ⟨p, x, uaB_sub body fields (x :: rest) hu x hx, ?_⟩
-    have := (hp [] []).2.2 (by simp)
+  cases hu : uaB body fields with
+  | none =>
+    obtain ⟨x, hx, p, hp⟩ := failB body fields hu
+    refine ⟨p, x, hx, ?_⟩
+    have := (hp [] [] (by simp)).2
     simpa using this
+  | some u' =>
+    simp only [hu] at h
+    cases u' with
+    | nil => simp at h
+    | cons x rest =>
+      have hx : x ∈ x :: rest := by simp
+      obtain ⟨p, hp⟩ := pathB body fields (x :: rest) x hu hx
+      refine ⟨p, x, uaB_sub body fields (x :: rest) hu x hx, ?_⟩
+      have := (hp [] []).2.2 (by simp)
+      simpa using this
 
 open MV in
-/-- **constructor_analysis_exact**: for bodies without `return`, acceptance is exactly "every path assigns
-    to every attribute" -/
-theorem constructor_analysis_exact (fields : List Nat) (body : List CS) (hrf : retFreeB body = true) :
+/-- **constructor_analysis_exact**: acceptance is exactly "every path assigns to every attribute" -/
+theorem constructor_analysis_exact (fields : List Nat) (body : List CS) :
     ctorAccepts fields body = true ↔ ∀ choices, ∀ f ∈ fields, f ∈ (runB body choices []).2.1 := by
   constructor
   · intro h choices; exact constructor_assigns_every_attribute fields body h choices
@@ -137,7 +143,7 @@ theorem constructor_analysis_exact (fields : List Nat) (body : List CS) (hrf : r
     cases hacc : ctorAccepts fields body with
     | true => rfl
     | false =>
-      obtain ⟨choices, f, hf, hnot⟩ := constructor_rejection_is_justified fields body hrf hacc
+      obtain ⟨choices, f, hf, hnot⟩ := constructor_rejection_is_justified fields body hacc
       exact absurd (hall choices f hf) hnot
 
 end MV.C09
